@@ -7,6 +7,7 @@ claimed = {
  "C03": ("dyadic refinement/ancestor oracle with a symbolic probe cell; every zoom-out distance, zoom-in <= 3 levels; 1-2 IDs", "§3 C03"),
  "C04": ("region equality through a symbolic unit cell, merges-all-it-can through a symbolic target voxel, idempotence; 1-3 IDs and complete child sets", "§3 C04"),
  "C05": ("ancestor-or-equal oracle for extended IDs; the radix tree executed from its SSA with a hit/miss model of symbolic child-table indices", "§3 C05"),
+ "C06": ("VERTICAL segments only (one concrete column, hZoom 20, vZoom in {0,10,25,26,33,34,35}): for altitudes on the 2^-20 m grid with end cells <= 4 (thorough 8) apart the result is exactly the contiguous run of cells, decided over the integers; arbitrary doubles (exact IEEE) for adjacent cells at vZoom 0/10 in the thorough tier; both ends in one voxel gives that single ID for any points. Slanted and horizontal segments (division by 360, libm inside the recursion) are NOT decided", "§3 C06"),
  "C07": ("modular translation oracle, identity, inverse, composition; zoom case-split, everything else symbolic", "§3 C07"),
  "C08": ("two-way symbolic membership against the stencil of modular shifts; counts, no-self, symmetry", "§3 C08"),
  "C09": ("zoom-in/zoom-out/merge/overlap round trips on symbolic IDs; point-level vertical nesting in exact IEEE arithmetic", "§3 C09"),
@@ -22,7 +23,7 @@ claimed = {
  "C20": ("set helpers by symbolic membership, Max/Min, arithmetic shift against 128-bit ghost floor, Combinations enumerated on the real code", "§3 C20"),
 }
 levels = {"C19": "other"}
-notes_extra = {"C18": " — the numeric claims of C18 (EPSG:3857 is spherical Mercator on 6378137 m; round trip within 2e-10 degrees) are NOT decided: third-party transcendental code"}
+notes_extra = {"C06": " — a PARTIAL decision of C06: only vertical segments; the chain connectivity and the corner cases of slanted segments are outside the claim", "C18": " — the numeric claims of C18 (EPSG:3857 is spherical Mercator on 6378137 m; round trip within 2e-10 degrees) are NOT decided: third-party transcendental code"}
 na = {
  "C06": "line voxelisation: the recursion over float midpoints (division by 360 / libm inside a recursion of input-dependent depth) could not be brought within reach of the installed solvers in the time available; see DESIGN.md §4",
  "C14": "corridor: depends on C06's line, on GJK distance (closest_go) and WGS84 geodesy (geodesy_go) numerics; only a stubbed structural claim was within reach and was not completed; see DESIGN.md §4",
